@@ -308,6 +308,10 @@ def run(ctx):
     with ctx.rule("C02.R10", "T1+T7", "every frame is addressed with the lane it belongs to (the sender's lane name is set per frame, for the lane of that frame)", floor=15) as r:
         uplinks.frame_lane_name(r, ctx)
 
+    with ctx.rule("C02.R11", "T2", "the map lane's queues are drained: pop answers None only when nothing is queued", floor=1) as r:
+        from rules.common import pop_until_exhausted_rule
+        pop_until_exhausted_rule(r, ctx)
+
 
 def is_ret_call(body, c):
     return c.dest[0] == 0 and not c.dest[1]
